@@ -14,6 +14,12 @@ pub mod source;
 pub mod util;
 
 pub fn interp_livelock(src: &source::SharedLog, f: model::Format) -> engine::CheckResult {
+    if let Some((cur, ans)) = src.borrow().bad_policy {
+        return Err(engine::Failure::new(
+            format!("{}/policy-answer-{}", light::fmt_name(f), if ans <= cur { "does-not-grow" } else { "absurdly-large" }),
+            format!("the growth policy answered grow_to({}) = {}: the harness refused instead of passing it on", cur, ans),
+        ));
+    }
     if src.borrow().budget_exceeded {
         return Err(engine::Failure::new(
             format!("{}/livelock-step-budget", light::fmt_name(f)),
